@@ -380,6 +380,30 @@ def judge(c, part):
                 break
         if before["parsed-unit-registry"] != ("py", "True"):
             bad(f"unit-parsed-against-restored-registry-bound-elsewhere:{_rkey(c['route'])}", got=before["parsed-unit-registry"])
+    # ---- (3b) a copy that shares its registry's table with the original (Unit.copy(), copy.copy): an edit made through either
+    #      handle is an edit of the one table both read, so by-name operations on original and copy keep giving the same outcome
+    if reg is not None and c.get("edit_after") and kind != "array-text" and restored.units.registry is not twin.units.registry and restored.units.registry.lut is twin.units.registry.lut and not out:
+        part.ev()
+        part.count("history: shared table edited after a shallow copy")
+        part.nt(("shared-table-edit", c["route"], c["unit"]))
+        import unyt.dimensions as D_
+
+        def by_name(x):
+            r_ = x.units.registry
+            return {"code_length": lambda: Unit("code_length", registry=r_), "kcode_length": lambda: Unit("kcode_length", registry=r_),
+                    "to-code": lambda: (x / x.units).to("dimensionless") * Unit("code_length*kcode_length/s", registry=r_),
+                    "own-spelling": lambda: Unit(c["unit"], registry=r_), "new-symbol": lambda: Unit("vfyy", registry=r_), "to-kcode": lambda: unyt_quantity(3.0, "m", registry=r_).to("kcode_length")}
+
+        for k, f in list(by_name(twin).items()) + list(by_name(restored).items()):
+            outcome(f)  # both handles have answered (and memoised) every name before the edit
+        editor = (twin if len(c["unit"]) % 2 else restored).units.registry
+        editor.modify("code_length", 7.0e18)
+        editor.add("vfyy", 3.0, D_.length)
+        for (k, f1), (_, f2) in zip(by_name(twin).items(), by_name(restored).items()):
+            o1, o2 = outcome(f1), outcome(f2)
+            if not same_outcome(o1, o2):
+                bad(f"handles-on-one-table-disagree-after-an-edit:{_rkey(c['route'])}:{k}", original=o1, restored=o2, edited_through="original" if editor is twin.units.registry else "copy")
+                break
     if len(part.samples) < 2:
         part.sample({"registry": c["reg"], "unit": c["unit"], "route": c["route"], "follow-up": c["follow"], "restored": repr(restored)[:80]})
     return out
